@@ -79,7 +79,8 @@ def build(tree: dict) -> Any:
                 'bytearray': bytearray(b'y'), 'frozenset': frozenset({1}), 'range': range(2), 'type': int,
                 'func': len}[w]
     if k == 'badkeydict':
-        bad_key = {'int': 1, 'none': None, 'tuple': (1,), 'bytes': b'k', 'enum': vu.Color.RED}[tree['key']]
+        bad_key = {'int': 1, 'none': None, 'tuple': (1,), 'tuple0': (), 'tuple2': (0, 1), 'float': 1.5, 'bool': True, 'bytes': b'k', 'enum': vu.Color.RED,
+                   'frozenset': frozenset({1})}[tree['key']]
         d = {cp2s(kk): build(v) for kk, v in tree['items']}
         d[bad_key] = build(tree['value'])
         return d
